@@ -320,6 +320,8 @@ type refOut struct {
 	ret    []byte
 	bigmem bool
 	steps  int
+	memlen int
+	skipGas bool
 }
 
 func boundarySet(code []byte) []bool {
@@ -336,18 +338,20 @@ func boundarySet(code []byte) []bool {
 }
 
 var gasyFlag bool
+var refMemLen int
 
 const refMemCap = 8 << 20 // no run in this harness can pay for more memory than this
 const refMemGasy = 16 << 10 // beyond this the memory fee may exhaust the gas of a run
 
 func refRun(code, input []byte, defined *[256]bool, maxSteps int) (out refOut) {
-	defer func() { out.bigmem = out.bigmem || gasyFlag; gasyFlag = false }()
+	defer func() { out.bigmem = out.bigmem || gasyFlag; gasyFlag = false; out.memlen = refMemLen }()
 	var stack []*big.Int // last = top
 	var mem []byte
 	pc := 0
 	bnd := boundarySet(code)
 	steps := 0
 	gasyFlag = false
+	refMemLen = 0
 	pop := func() *big.Int { v := stack[len(stack)-1]; stack = stack[:len(stack)-1]; return v }
 	push := func(v *big.Int) { stack = append(stack, v) }
 	// expand returns false when the region is beyond anything payable
@@ -367,6 +371,7 @@ func refRun(code, input []byte, defined *[256]bool, maxSteps int) (out refOut) {
 		for len(mem) < e {
 			mem = append(mem, 0)
 		}
+		refMemLen = len(mem)
 		return true, false
 	}
 	getData := func(data []byte, off, n *big.Int) []byte {
@@ -538,7 +543,7 @@ func refRun(code, input []byte, defined *[256]bool, maxSteps int) (out refOut) {
 			}
 			push(big.NewInt(int64(len(mem))))
 		case op == 0x5a: // GAS: outside the gas-free reference
-			return refOut{kind: "skip", steps: steps}
+			return refOut{kind: "skip", skipGas: true, steps: steps}
 		case op == 0x5b:
 		case op == 0x5f:
 			if e := need(0, 1); e != "" {
@@ -925,7 +930,11 @@ func genFaulty(r *hx.Rng, f vmx.Fork, undefined []byte) []byte {
 			g.emit(0x39)
 			g.h -= 3
 		case 3:
-			g.pushV(pow2(uint(20 + r.Intn(30))))
+			if r.Bool() {
+				g.pushV(pow2(uint(24 + r.Intn(26)))) // far beyond what 10^7 gas pays for
+			} else {
+				g.pushV(big.NewInt(int64(4096 + r.Intn(28000)))) // payable, several hundred words at once
+			}
 			g.emit(0x51)
 		}
 	case 7: // truncated PUSH as the last instruction: pads with zeros and execution stops
@@ -1085,7 +1094,7 @@ func main() {
 		}
 	}
 	zero := big.NewInt(0)
-	ternModel := []*big.Int{big.NewInt(0), big.NewInt(1), big.NewInt(2), pow2(128), two255, maxW}
+	ternModel := []*big.Int{big.NewInt(0), big.NewInt(1), two255, maxW}
 	for _, o := range ops {
 		switch o.arity {
 		case 1:
@@ -1253,7 +1262,8 @@ func main() {
 				res.Violate("C10/program:"+kind, "real EVM and reference machine disagree: "+got+" vs "+want, in)
 			}
 		}
-		if toModel && len(code) < 1400 {
+		modelOK := ref.memlen <= 1<<16 && (ref.kind != "skip" || ref.skipGas || gas <= 39000)
+		if toModel && len(code) < 1400 && modelOK {
 			addCase(f, fmt.Sprintf("CProg %s %s %d (%s)", hx.CoqHex(code), hx.CoqHex(input), gas, ob.coq()), in)
 		}
 		if kind == "structured" && ob.class == "ok" && len(ob.ret) > dumpBase {
